@@ -11,10 +11,15 @@ def _mm(sub, text, observed=None, expected=None):
     return {"sub": sub, "text": text, "observed": observed, "expected": expected}
 
 
-def mk(kind, o, sg=1.0):
+FRAMES = ((1.0, 0.0), (1.0, 2.0 ** 20), (2.0 ** -40, 0.0))
+
+
+def mk(kind, o, sg=1.0, sh=0.0, int_x=False):
     if len(o["x"]) == 0:
         return None
-    x = np.array([float(v) * sg for v in o["x"]], dtype=float)
+    x = np.array([float(v) * sg + sh for v in o["x"]], dtype=float)
+    if int_x:
+        x = [int(v) for v in o["x"]]          # breakpoints given as Python ints
     y1 = np.array([float(fr(v)) for v in o["y1"]], dtype=float)
     y2 = np.array([float(fr(v)) for v in o["y2"]], dtype=float)
     if kind == "pwc":
@@ -34,10 +39,10 @@ def arrays(kind, f):
     return (np.array(f.x, float), np.array(f.y, float), np.array(f.mp, float))
 
 
-def expected(kind, o, sg=1.0):
+def expected(kind, o, sg=1.0, sh=0.0):
     if len(o["x"]) == 0:
         return None
-    x = [float(v) * sg for v in o["x"]]
+    x = [float(v) * sg + sh for v in o["x"]]
     y1 = [float(fr(v)) for v in o["y1"]]
     y2 = [float(fr(v)) for v in o["y2"]]
     if kind == "pwc":
@@ -80,6 +85,9 @@ def apply_op(heap, op, kind):
         heap[d].mul_scalar(float(fr(op["c"])))
     elif f == "copy":
         heap[d] = heap[op["s"] - 1].copy()
+    elif f == "avg":
+        from pyspike.DiscreteFunc import average_profile
+        heap[d] = average_profile([heap[i - 1] for i in op["ss"]])
     else:
         raise ValueError(f)
 
@@ -91,18 +99,69 @@ def chk_heap(rec, be):
     kind = rec["kind"]
     out = []
     n = 0
-    for sg in rec.get("_sigmas", (1.0, 2.0 ** -10)):
-        heap = [mk(kind, o, sg) for o in rec["pre"]]
+    for fi, (sg, sh) in enumerate(rec.get("_frames", FRAMES)):
+        # frame 0 is run twice: the second time the breakpoints are handed over as Python ints
+        # (pure-Python add only: a compiled double[:] kernel rejects an integer buffer by design)
+        for int_x in ((False, True) if (fi == 0 and be == "py" and all(float(v) == int(v) for o in rec["pre"] for v in o["x"])) else (False,)):
+            n += _heap_frame(rec, be, kind, sg, sh, int_x, out)
+    n += _dtype_probe(rec, be, kind, out)
+    return n, out
+
+
+def _dtype_probe(rec, be, kind, out):
+    """the result of add must not depend on whether the receiver was built from Python ints or from
+    floats (PSTH-like integer-valued functions are legitimate receivers): code vs code"""
+    from fractions import Fraction
+    from math import gcd
+    op = rec["op"]
+    if op["f"] != "add" or op["d"] == op["s"] or be != "py":
+        return 0
+    r, o = rec["pre"][op["d"] - 1], rec["pre"][op["s"] - 1]
+    if not all(float(v) == int(v) for v in r["x"]):
+        return 0
+    vals = [fr(v) for v in r["y1"]] + ([fr(v) for v in r["y2"]] if kind != "pwc" else [])
+    L = 1
+    for v in vals:
+        L = L * v.denominator // gcd(L, v.denominator)
+    xi = [int(v) for v in r["x"]]
+    y1i = [int(fr(v) * L) for v in r["y1"]]
+    y2i = [int(fr(v) * (L if kind == "pwl" else 1)) for v in r["y2"]]
+
+    def build(as_int):
+        cv = (lambda a: list(a)) if as_int else (lambda a: np.array(a, dtype=float))
+        if kind == "pwc":
+            return pyspike.PieceWiseConstFunc(cv(xi), cv(y1i))
+        if kind == "pwl":
+            return pyspike.PieceWiseLinFunc(cv(xi), cv(y1i), cv(y2i))
+        return pyspike.DiscreteFunc(cv(xi), cv(y1i), cv(y2i))
+    a, b = build(False), build(True)
+    st1, _ = call(lambda: a.add(mk(kind, o)))
+    st2, e2 = call(lambda: b.add(mk(kind, o)))
+    sub = "heap[%s,%s,integer-built receiver]" % (kind, be)
+    if st1 != "ok":
+        return 1
+    if st2 != "ok":
+        out.append(_mm(sub, "%s receiver x=%s y=%s (ints) + operand %s raised %s" % (sub, xi, y1i, show(expected(kind, o)), e2)))
+    elif not same(arrays(kind, b), [list(v) for v in arrays(kind, a)], 1.0, disc=(kind == "disc")):
+        out.append(_mm(sub, "%s receiver x=%s y=%s + operand %s: built from ints the sum is %s, built from floats %s" % (
+            sub, xi, y1i, show(expected(kind, o)), show(arrays(kind, b)), show(arrays(kind, a)))))
+    return 1
+
+
+def _heap_frame(rec, be, kind, sg, sh, int_x, out):
+    n = 0
+    if True:
+        heap = [mk(kind, o, sg, sh, int_x) for o in rec["pre"]]
         st, r = call(apply_op, heap, rec["op"], kind)
         n += 1
-        sub = "heap[%s,%s,s=%g]" % (kind, be, sg)
+        sub = "heap[%s,%s,s=%g,shift=%g%s]" % (kind, be, sg, sh, ",int x" if int_x else "")
         hdr = "pre=%s op=%s" % ([show(expected(kind, o)) for o in rec["pre"]], rec["op"])
         if st != "ok":
             out.append(_mm(sub, "%s %s raised %s" % (sub, hdr, r)))
-            continue
+            return n
         bad = False
         for k, (f, o) in enumerate(zip(heap, rec["post"])):
-            got, exp = arrays(kind, f), expected(kind, o, sg)
+            got, exp = arrays(kind, f), expected(kind, o, sg, sh)
             if not same(got, exp, sg, disc=(kind == "disc")):
                 what = "receiver" if k == rec["op"]["d"] - 1 else "object %d (not the receiver)" % (k + 1)
                 out.append(_mm(sub, "%s %s: %s is %s expected %s" % (sub, hdr, what, show(got), show(exp)),
@@ -110,7 +169,7 @@ def chk_heap(rec, be):
                 bad = True
                 break
         if bad:
-            continue
+            return n
         # independence probe: scaling one object must not change any other one
         for k, f in enumerate(heap):
             if f is None:
@@ -126,7 +185,7 @@ def chk_heap(rec, be):
             n += 1
             if bad:
                 break
-    return n, out
+    return n
 
 
 @checker("query")
@@ -137,11 +196,14 @@ def chk_query(rec, be):
     out = []
     n = 0
     fo = {"x": [fr(v) for v in fq["x"]], "y1": fq["y1"], "y2": fq["y2"]}
-    for sg in rec.get("_sigmas", (1.0, 2.0 ** -10)):
-        obj = mk(kind, fo, sg)
-        sub = "query[%s,s=%g]" % (kind, sg)
+    frames = list(rec.get("_frames", ((1.0, 0.0, False), (2.0 ** -10, 0.0, False), (1.0, 0.0, True), (1.0, 2.0 ** 20, False))))
+    for sg, sh, int_x in frames:
+        if int_x and not all(v.denominator == 1 for v in fo["x"]):
+            continue
+        obj = mk(kind, fo, sg, sh, int_x)
+        sub = "query[%s,s=%g,shift=%g%s]" % (kind, sg, sh, ",int x" if int_x else "")
         hdr = "f=%s q=%s" % (show(expected(kind, fo)), {k: (str(fr(v)) if isinstance(v, list) else v) for k, v in q.items()})
-        a, b, c, d = (float(fr(q[k])) * sg for k in "abcd")
+        a, b, c, d = (float(fr(q[k])) * sg + sh for k in "abcd")
         v, m = float(fr(res["v"])), float(fr(res["m"]))
 
         def bad(what, got, exp):
@@ -189,7 +251,7 @@ def chk_query(rec, be):
                 num("avrg([(c,d),(a,b)])", lambda: obj.avrg([[c, d], [a, b]]), ratio)
             elif k == "plot":
                 st, r = call(lambda: obj.get_plottable_data(averaging_window_size=q["k"]) if q["k"] else obj.get_plottable_data())
-                ex = [float(fr(t)) * sg for t in res["xs"]]
+                ex = [float(fr(t)) * sg + sh for t in res["xs"]]
                 ey = [float(fr(t)) for t in res["ys"]]
                 if st != "ok":
                     out.append(_mm(sub, "%s %s: get_plottable_data raised %s" % (sub, hdr, r)))
@@ -205,18 +267,18 @@ def chk_query(rec, be):
             num("integral()", lambda: obj.integral(), v * sg, sg)
             num("integral(None)", lambda: obj.integral(None), v * sg, sg)
             num("avrg()", lambda: obj.avrg(), v * sg / T)
-            num("integral((x0,xN))", lambda: obj.integral((float(fo["x"][0]) * sg, float(fo["x"][-1]) * sg)), v * sg, sg)
+            num("integral((x0,xN))", lambda: obj.integral((float(fo["x"][0]) * sg + sh, float(fo["x"][-1]) * sg + sh)), v * sg, sg)
         elif k == "multi":
             num("avrg([(a,b),(c,d)])", lambda: obj.avrg([(a, b), (c, d)]), v / m)
             num("avrg([[c,d],[a,b]])", lambda: obj.avrg([[c, d], [a, b]]), v / m)
         elif k == "eval":
             num("f(t)", lambda: obj(a), v)
             num("f([t])", lambda: obj([a])[0], m)
-            x0 = float(fo["x"][0]) * sg
+            x0 = float(fo["x"][0]) * sg + sh
             num("f([x0, t, t])[2]", lambda: obj([x0, a, a])[2], m)
         elif k == "plot":
             st, r = call(obj.get_plottable_data)
-            ex = [float(fr(t)) * sg for t in res["xs"]]
+            ex = [float(fr(t)) * sg + sh for t in res["xs"]]
             ey = [float(fr(t)) for t in res["ys"]]
             if st != "ok":
                 out.append(_mm(sub, "%s %s: get_plottable_data raised %s" % (sub, hdr, r)))
